@@ -233,8 +233,128 @@ end Tumfl.Gen
 """
 
 
+# --------------------------------------------------------------------------- expression ladder (static read of parser.py)
+def extract_ladder(rep: Report) -> str:
+    import ast as pyast
+    from tumfl.AST import BinaryOperand, BinOp, Name, UnaryOperand, UnOp
+    from tumfl.parser import Parser
+    from tumfl.Token import Token, TokenType
+
+    src = (REPO / "tumfl" / "parser.py").read_text()
+    tree = pyast.parse(src)
+    cls = next(n for n in tree.body if isinstance(n, pyast.ClassDef) and n.name == "Parser")
+    methods = {n.name: n for n in cls.body if isinstance(n, pyast.FunctionDef)}
+
+    def tt_names(node) -> list[str]:
+        if isinstance(node, pyast.Tuple):
+            return [e.attr for e in node.elts]
+        return [node.attr]
+
+    def single_return_call(m):
+        body = [b for b in m.body if not (isinstance(b, pyast.Expr) and isinstance(b.value, pyast.Constant))]
+        if len(body) == 1 and isinstance(body[0], pyast.Return) and isinstance(body[0].value, pyast.Call):
+            return body[0].value
+        return None
+
+    levels = []
+    cur = "_parse_exp"
+    seen = set()
+    while True:
+        if cur in seen or cur not in methods:
+            rep.problem("Ladder", f"ladder does not reach the unary level (stuck at {cur})")
+            break
+        seen.add(cur)
+        call = single_return_call(methods[cur])
+        if call is None or not isinstance(call.func, pyast.Attribute):
+            break
+        helper = call.func.attr
+        if helper.endswith("parse_left_associative_binop") and len(call.args) == 2:
+            levels.append((cur, False, tt_names(call.args[0]), call.args[1].attr, None))
+            cur = call.args[1].attr
+        elif helper.endswith("parse_right_associative_binop") and len(call.args) == 3:
+            levels.append((cur, True, tt_names(call.args[0]), call.args[1].attr, call.args[2].attr))
+            if call.args[1].attr == "_parse_atom":
+                break
+            cur = call.args[1].attr
+        else:
+            break
+    # the walk ends at _parse_un_exp (not a single call); _parse_pow_exp is read on its own
+    bin_levels = list(levels)
+    pow_call = single_return_call(methods["_parse_pow_exp"]) if "_parse_pow_exp" in methods else None
+    pow_level = None
+    if (pow_call is not None and isinstance(pow_call.func, pyast.Attribute) and pow_call.func.attr.endswith("parse_right_associative_binop")
+            and len(pow_call.args) == 3):
+        pow_level = ("_parse_pow_exp", True, tt_names(pow_call.args[0]), pow_call.args[1].attr, pow_call.args[2].attr)
+    if pow_level is None or pow_level[3] != "_parse_atom" or pow_level[4] != "_parse_un_exp":
+        rep.problem("Ladder", "_parse_pow_exp is not `right-assoc(types, _parse_atom, _parse_un_exp)`", level=str(pow_level))
+        pow_level = pow_level or ("_parse_pow_exp", True, [], "", "")
+    levels = bin_levels + [pow_level]
+    un = methods.get("_parse_un_exp")
+    un_src = pyast.unparse(un) if un else ""
+    if "self._parse_un_exp()" not in un_src or "return self._parse_pow_exp()" not in un_src:
+        rep.problem("Ladder", "_parse_un_exp does not have the shape `if unary: eat; UnOp(tok, self._parse_un_exp()) else self._parse_pow_exp()`")
+    un_types = []
+    for n in pyast.walk(un):
+        if isinstance(n, pyast.Compare) and isinstance(n.ops[0], pyast.In):
+            un_types = tt_names(n.comparators[0])
+    # the level chain must be: each level's base is the next level's method; right-assoc binary levels re-enter themselves
+    chain_ok = True
+    for (m, right, _tys, base, operand), nxt in zip(bin_levels, [l[0] for l in bin_levels[1:]] + ["_parse_un_exp"]):
+        if base != nxt:
+            chain_ok = False
+        if right and operand != m:
+            rep.problem("Ladder", f"right-associative level {m} does not re-enter itself for its right operand", operand=operand)
+    if not chain_ok:
+        rep.problem("Ladder", "level methods are not chained base-to-next", levels=str([(l[0], l[3]) for l in levels]))
+    tok = Token(TokenType.NAME, "a", 1, 1)
+    a = Name(tok, "a")
+    bmap, umap = [], []
+    for t in TokenType:
+        try:
+            bmap.append((t.name, BinOp.from_token(Token(t, t.value, 1, 1), a, a).op.value))
+        except Exception:  # noqa: BLE001
+            pass
+        try:
+            umap.append((t.name, UnOp.from_token(Token(t, t.value, 1, 1), a).op.value))
+        except Exception:  # noqa: BLE001
+            pass
+    bd = dict(bmap)
+    for m, right, tys, base, operand in levels:
+        for ty in tys:
+            if ty not in bd:
+                rep.problem("Ladder", f"token type {ty} of level {m} has no BinaryOperand", level=m)
+    ud = dict(umap)
+    un_map = [(t, ud[t]) for t in un_types if t in ud]
+    if len(un_map) != len(un_types):
+        rep.problem("Ladder", "a unary token type has no UnaryOperand", types=un_types)
+    lv = ", ".join("([" + ", ".join(lstr(bd.get(t, "?")) for t in tys) + "], " + ("true" if right else "false") + ")"
+                   for m, right, tys, base, operand in bin_levels)
+    pw = ", ".join(lstr(bd.get(t, "?")) for t in (levels[-1][2] if levels else []))
+    bt = ", ".join(f"({lstr(k)}, {lstr(v)})" for k, v in bmap)
+    ut = ", ".join(f"({lstr(k)}, {lstr(v)})" for k, v in un_map)
+    be = ", ".join(lstr(t.name) for t in Parser._BLOCK_END_TYPES)
+    rep.info["ladder"] = {"levels": [(l[0], l[1], l[2]) for l in levels]}
+    return f"""/-! GENERATED by harness/extract.py from /repo (tumfl/parser.py read statically, from_token maps evaluated) - do not edit. -/
+namespace Tumfl.Gen
+
+/-- binary levels from `_parse_exp` down to the level above `_parse_un_exp`: (operator symbols, uses the right-associative helper) -/
+def ladderLevels : List (List String × Bool) := [{lv}]
+/-- operators of `_parse_pow_exp` (right associative, base `_parse_atom`, operand `_parse_un_exp`) -/
+def powOps : List String := [{pw}]
+/-- `BinOp.from_token`: TokenType member name -> operator symbol -/
+def binaryTokens : List (String × String) := [{bt}]
+/-- token types accepted by `_parse_un_exp` with `UnOp.from_token`'s operator symbol -/
+def unaryTokens : List (String × String) := [{ut}]
+/-- `Parser._BLOCK_END_TYPES` -/
+def blockEndTypes : List String := [{be}]
+
+end Tumfl.Gen
+"""
+
+
 EXTRACTORS = {
     "Brackets": extract_brackets,
+    "Ladder": extract_ladder,
     "LexTables": extract_lextables,
 }
 
